@@ -36,12 +36,14 @@ def plan(tier):
     if tier == "quick":
         specs = [(2, [("dense", 1, 5), ("bounded", 3, 6, 7)], MENU_PAIR_Q),
                  (3, [("dense", 1, 3)], MENU_LIST_Q),
-                 (4, [("dense", 1, 2)], MENU_LIST_Q[:1])]
+                 (4, [("dense", 1, 2)], MENU_LIST_Q[:1]),
+                 (5, [("bounded", 1, 1, 2)], MENU_LIST_Q[:1]), (6, [("bounded", 1, 1, 1)], MENU_LIST_Q[:1])]
     else:
         specs = [(2, [("dense", 1, 6)], MENU_PAIR_T), (2, [("dense", 7, 7), ("bounded", 3, 8, 10)],
                                                        MENU_PAIR_Q + [(None, 12 * U)]),
                  (3, [("dense", 1, 4)], MENU_LIST_T[:3]),
-                 (4, [("dense", 1, 2)], MENU_LIST_T[:2]), (4, [("dense", 3, 3)], MENU_LIST_Q[:1])]
+                 (4, [("dense", 1, 2)], MENU_LIST_T[:2]), (4, [("dense", 3, 3)], MENU_LIST_Q[:1]),
+                 (5, [("bounded", 1, 1, 3)], MENU_LIST_Q), (6, [("bounded", 1, 1, 2)], MENU_LIST_Q[:1])]
     tasks, descs = [], []
     mixed_ks = (8,) if tier == "quick" else (8, 10)
     for be in ("py", "pyx"):
@@ -57,6 +59,8 @@ def plan(tier):
         sel = "all"
         if N == 4 and (tier == "quick" or regimes[0][1] == 3):
             sel = "quick4"
+        if N >= 5:
+            sel = "many%d" % N
         tasks += pairs.regime_tasks(N, regimes, ["py", "pyx"],
                                     extra={"menu": menu, "sel": sel},
                                     nshards=48 if N > 2 else 32)
@@ -343,6 +347,9 @@ def check_state(r, k, masks, task):
 
 SEL = {3: selections(3), 4: selections(4),
        # quick tier, N=4: identity, prefixes, non-prefix sorted, unsorted, full permutations
+       # many trains with at most one spike each: 10 / 15 pairs
+       "many5": [None, [4, 3, 2, 1, 0], [2, 4, 0], [1, 3, 0, 4, 2]],
+       "many6": [None, [5, 4, 3, 2, 1, 0], [3, 5, 1], [2, 0, 4, 1, 5, 3]],
        "quick4": [None, [0, 1], [1, 0], [2, 3], [3, 1], [0, 3], [1, 2, 3], [0, 2, 3],
                   [3, 0, 2], [2, 1, 0], [3, 2, 1, 0], [1, 3, 0, 2]]}
 
